@@ -7,6 +7,7 @@ Case kinds (all JSON):
   sig   : what inspect.signature(cls) reports
 """
 import functools
+import gc
 import inspect
 import itertools
 import operator
@@ -133,8 +134,13 @@ def sig_of_callable(fn, drop_first):
 class World:
     """the python objects of one case: classes, pool instances, the construction log"""
 
+    _made = [0]
+
     def __init__(self, class_specs):
         from cobald.interfaces import Pool, PoolDecorator, Controller
+        World._made[0] += 1
+        if World._made[0] % 64 == 0:
+            gc.collect()       # synthesised classes are cyclic garbage; ABCMeta's checks slow down with every live subclass
         self.log = []            # (object, class index, raw positional tuple, raw keyword dict)
         self.bindings = {}       # id(object) -> what the innermost __init__ saw
         self.Pool = Pool
@@ -223,11 +229,12 @@ def shipped_class(name):
 
 def live_kind(cls):
     from cobald.interfaces import Pool, PoolDecorator, Controller
-    if issubclass(cls, Controller):
+    mro = cls.__mro__          # not issubclass: ABCMeta walks every (even dead) subclass for negative answers
+    if Controller in mro:
         return "C"
-    if issubclass(cls, PoolDecorator):
+    if PoolDecorator in mro:
         return "D"
-    if issubclass(cls, Pool):
+    if Pool in mro:
         return "P"
     raise ValueError("class is neither controller nor pool: %r" % cls.__name__)
 
